@@ -26,7 +26,8 @@
 EXTENDS Naturals, Sequences, FiniteSets, TLC
 
 CONSTANTS MaxSteps,     \* length of the histories
-          Deviations,   \* subset of {"SetDataAbsolute", "RemoveFromGlobalRoot", "KickUnprivileged", "DeepMarksStay", "CutNoNotify", "PrivBitsAccepted", "ReorderFromGlobalRoot"}
+          Deviations,   \* subset of {"SetDataAbsolute", "RemoveFromGlobalRoot", "KickUnprivileged", "DeepMarksStay", "CutNoNotify", "PrivBitsAccepted", "ReorderFromGlobalRoot",
+                        \*            "FilteredMarksStay", "QuietCreateNoMarks"}
           RECORD,       \* TRUE: `last` describes the step (behaviour generation)
           Actors,       \* the sessions that issue commands (model checking / generation: {"s1"}; trace validation: all)
           MenuKind      \* "full" | "small"
@@ -36,7 +37,7 @@ HostOf(s) == IF s = "s3" THEN "hB" ELSE "hA"
 Root(s) == <<HostOf(s), s>>
 RmvTag == "!Rmv"            \* PR_NAME_REMOVE_FROM_INDEX
 
-VARIABLES st,      \* the world: [tree, idx, ctr, born, clock, marks, params, psub, conn, mirror]
+VARIABLES st,      \* the world: [tree, idx, ctr, born, clock, marks, params, psub, conn, mirror, hush]
           n,       \* steps taken
           who,     \* the session that took the last step ("none" initially)
           kind,    \* "init" | "cmd" | "depart"
@@ -54,22 +55,44 @@ CM(c, name)  == c = "*" \/ name \in Alts(c)                           \* a claus
 Match(pat, p) == Len(pat) = Len(p) /\ \A i \in 1..Len(p) : CM(pat[i], p[i])
 \* a path string without leading slash gets the default prefix (subscriptions, KICK, GETDATA ...)
 Fix(x) == IF x.abs THEN x.p ELSE <<"*", "*">> \o x.p
+\* a subscription is [abs, p, f]: its path and its QueryFilter (f = 0: none; f = w: a WhatCodeQueryFilter, the payload's what-code must be w).
+\* The MARKS are by path only - the filter is applied when a change is notified, and when the matching nodes are first sent
 Subs(w, s) == {Fix(x) : x \in w.psub[s]}
-Cnt(w, s, p) == Cardinality({pat \in Subs(w, s) : Match(pat, p)})     \* NodePathMatcher::GetMatchCount
-Sel(w, s, p) == Owner(p) # s /\ Cnt(w, s, p) > 0                      \* p is selected for s's client (own nodes are the client's own business)
+Cnt(w, s, p) == Cardinality({pat \in Subs(w, s) : Match(pat, p)})     \* NodePathMatcher::GetMatchCount(node, NULL)
+HasFilt(w, s) == \E x \in w.psub[s] : x.f # 0                        \* _subscriptions.GetNumFilters() > 0
+\* NodePathMatcher::MatchesNode(node, payload): some subscription matches the path and its filter accepts the payload (no payload given: any filter accepts)
+MN(w, s, p, have, pay) == \E x \in w.psub[s] : Match(Fix(x), p) /\ (x.f = 0 \/ ~have \/ x.f = pay)
+Sel(w, s, p) == Owner(p) # s /\ MN(w, s, p, TRUE, w.tree[p])         \* p is selected for s's client (own nodes are the client's own business)
 
 ---------------------------------------------------------------------------------------------------------------
 (* elementary changes of the world, as DataNode / StorageReflectSession perform them *)
 NotifySet(w, p, by) == {s \in w.conn : w.marks[p][s] > 0 /\ s # by}   \* NotifySubscribersThatNodeChanged (no reflect-to-self)
 
-\* create node p (NotifySubscribersOfNewNode: every session computes its mark) or overwrite its payload; subscribers are told
-PutNode(w, p, pay, by) ==
-    LET mk == IF p \in DOMAIN w.tree THEN w.marks[p] ELSE [s \in S |-> IF s \in w.conn THEN Cnt(w, s, p) ELSE 0]
+\* StorageReflectSession::NodeChanged for a payload change: what session s is sent - "set", "rem" (the node stopped passing its filters) or nothing
+SetOutcome(w, s, p, oldHave, old, new) ==
+    IF ~HasFilt(w, s) THEN "set"
+    ELSE LET mb == MN(w, s, p, oldHave, old)  mn == MN(w, s, p, TRUE, new)
+         IN IF mn THEN "set" ELSE IF oldHave /\ mb THEN "rem" ELSE "none"
+RemOutcome(w, s, p, pay) == IF ~HasFilt(w, s) \/ MN(w, s, p, TRUE, pay) THEN "rem" ELSE "none"
+Drop(f, p) == [q \in DOMAIN f \ {p} |-> f[q]]
+
+\* create node p (NotifySubscribersOfNewNode: every session computes its mark, also for a QUIET creation) or overwrite its payload; the subscribers
+\* are told unless the change is quiet - then their mirrors lag for this node (hush) until a later change of it is sent to them
+PutNode(w, p, pay, by, quiet) ==
+    LET isNew == p \notin DOMAIN w.tree
+        old == IF isNew THEN 0 ELSE w.tree[p]
+        mk == IF ~isNew THEN w.marks[p]
+              ELSE [s \in S |-> IF s \in w.conn /\ ~(quiet /\ "QuietCreateNoMarks" \in Deviations) THEN Cnt(w, s, p) ELSE 0]
         w1 == [w EXCEPT !.tree = (p :> pay) @@ w.tree, !.marks = (p :> mk) @@ w.marks,
                         !.ctr = IF p \in DOMAIN w.ctr THEN w.ctr ELSE (p :> 0) @@ w.ctr,
                         !.born = IF p \in DOMAIN w.born THEN w.born ELSE (p :> w.clock) @@ w.born,          \* children are kept (and walked) in the order of their creation
                         !.clock = IF p \in DOMAIN w.born THEN w.clock ELSE w.clock + 1]
-    IN [w1 EXCEPT !.mirror = [s \in S |-> IF s \in NotifySet(w1, p, by) THEN (p :> pay) @@ w1.mirror[s] ELSE w1.mirror[s]]]
+        out(s) == SetOutcome(w1, s, p, ~isNew, old, pay)
+    IN IF quiet THEN [w1 EXCEPT !.hush = @ \cup {<<s, p>> : s \in NotifySet(w1, p, by)}]
+       ELSE [w1 EXCEPT !.mirror = [s \in S |-> IF s \notin NotifySet(w1, p, by) THEN w1.mirror[s]
+                                               ELSE IF out(s) = "set" THEN (p :> pay) @@ w1.mirror[s]
+                                               ELSE IF out(s) = "rem" THEN Drop(w1.mirror[s], p) ELSE w1.mirror[s]],
+                        !.hush = @ \ {<<s, p>> : s \in {t \in NotifySet(w1, p, by) : out(t) # "none"}}]
 
 SetIdx(w, q, seq) == [w EXCEPT !.idx = IF seq = <<>> THEN [x \in DOMAIN w.idx \ {q} |-> w.idx[x]] ELSE (q :> seq) @@ w.idx]
 IdxOf(w, q) == IF q \in DOMAIN w.idx THEN w.idx[q] ELSE <<>>
@@ -84,7 +107,8 @@ RemoveSub(w, p, by, tell) ==
         w1   == SetIdx(w, Parent(p), Without(IdxOf(w, Parent(p)), Leaf(p)))
     IN [w1 EXCEPT !.tree = [q \in keep |-> w.tree[q]], !.marks = [q \in keep |-> w.marks[q]], !.ctr = [q \in keep |-> w.ctr[q]], !.born = [q \in keep |-> w.born[q]],
                   !.idx = [q \in DOMAIN w1.idx \ gone |-> w1.idx[q]],
-                  !.mirror = [s \in S |-> [q \in {x \in DOMAIN w.mirror[s] : ~(tell /\ x \in gone /\ s \in NotifySet(w, x, by))} |-> w.mirror[s][q]]]]
+                  !.mirror = [s \in S |-> [q \in {x \in DOMAIN w.mirror[s] : ~(tell /\ x \in gone /\ s \in NotifySet(w, x, by) /\ RemOutcome(w, s, x, w.tree[x]) = "rem")} |-> w.mirror[s][q]]],
+                  !.hush = {e \in w.hush : ~(tell /\ e[2] \in gone /\ e[1] \in NotifySet(w, e[2], by) /\ RemOutcome(w, e[1], e[2], w.tree[e[2]]) = "rem")}]
 
 RECURSIVE RemoveAll(_, _, _)
 RemoveAll(w, ps, by) == IF ps = {} THEN w
@@ -92,15 +116,15 @@ RemoveAll(w, ps, by) == IF ps = {} THEN w
                              IN RemoveAll(IF p \in DOMAIN w.tree THEN RemoveSub(w, p, by, TRUE) ELSE w, ps \ {p}, by)
 
 \* StorageReflectSession::SetDataNode for a relative path: missing nodes along the path are created empty, the last one gets the payload
-RECURSIVE SetPath(_, _, _, _, _, _, _)
-SetPath(w, base, cl, k, pay, by, toIndex) ==
+RECURSIVE SetPath(_, _, _, _, _, _, _, _)
+SetPath(w, base, cl, k, pay, by, toIndex, quiet) ==
     IF k > Len(cl) THEN w
     ELSE LET p == base \o SubSeq(cl, 1, k)
              isLast == k = Len(cl)
-         IN IF ~isLast THEN SetPath(IF p \in DOMAIN w.tree THEN w ELSE PutNode(w, p, 0, by), base, cl, k + 1, pay, by, toIndex)
+         IN IF ~isLast THEN SetPath(IF p \in DOMAIN w.tree THEN w ELSE PutNode(w, p, 0, by, quiet), base, cl, k + 1, pay, by, toIndex, quiet)
             ELSE IF toIndex THEN (IF p \in DOMAIN w.tree THEN w            \* SETDATANODE_FLAG_ADDTOINDEX on an existing node: nothing happens
-                                  ELSE LET w1 == PutNode(w, p, pay, by) IN SetIdx(w1, Parent(p), Append(IdxOf(w1, Parent(p)), Leaf(p))))
-            ELSE PutNode(w, p, pay, by)
+                                  ELSE LET w1 == PutNode(w, p, pay, by, quiet) IN SetIdx(w1, Parent(p), Append(IdxOf(w1, Parent(p)), Leaf(p))))
+            ELSE PutNode(w, p, pay, by, quiet)
 
 \* the nodes a write command's pattern selects: the walk starts at the SENDER'S session node, a leading slash is dropped
 RelSel(w, s, pat, globalRoot) ==
@@ -113,7 +137,7 @@ FreeName(w, q, k) == IF (q \o <<"I" \o ToString(k)>>) \in DOMAIN w.tree THEN Fre
 InsertOrdered(w, q, before, pay, by) ==
     LET k  == FreeName(w, q, w.ctr[q])
         nm == "I" \o ToString(k)
-        w1 == PutNode([w EXCEPT !.ctr[q] = k + 1], q \o <<nm>>, pay, by)
+        w1 == PutNode([w EXCEPT !.ctr[q] = k + 1], q \o <<nm>>, pay, by, FALSE)
         cur == IdxOf(w, q)
     IN SetIdx(w1, q, InsAt(cur, PosOf(cur, before), nm))
 RECURSIVE InsertAll(_, _, _, _, _)
@@ -128,20 +152,22 @@ Reorder(w, p, before) ==
 RECURSIVE ReorderAll(_, _, _)
 ReorderAll(w, ps, before) == IF ps = {} THEN w ELSE LET p == CHOOSE x \in ps : \A y \in ps : w.born[x] <= w.born[y] IN ReorderAll(Reorder(w, p, before), ps \ {p}, before)
 
-\* a new SUBSCRIBE: parameter: +1 on every matching node, the matching nodes are sent (GETDATA), the parameter is stored
+\* a new SUBSCRIBE: parameter: +1 on every node matching the PATH, the nodes that also pass the filter are sent (GETDATA), the parameter is stored
 Subscribe(w, s, x) ==
-    IF x \in w.psub[s] \/ Fix(x) \in Subs(w, s) THEN w      \* same path again (no filters in this model: nothing changes); one spelling per path (F27 is C04's)
-    ELSE LET pat == Fix(x)
-             hit == {p \in DOMAIN w.tree : Match(pat, p)}
-         IN [w EXCEPT !.psub[s] = @ \cup {x},
-                      !.marks = [p \in DOMAIN w.tree |-> IF p \in hit THEN [w.marks[p] EXCEPT ![s] = @ + 1] ELSE w.marks[p]],
-                      !.mirror[s] = [p \in {y \in hit : Owner(y) # s} |-> w.tree[p]] @@ @]
-\* RemoveParameter of a SUBSCRIBE: parameter: -1 on every matching node; the server says nothing, the client prunes its mirror
+    LET pat == Fix(x)
+        hit == {p \in DOMAIN w.tree : Match(pat, p)}
+        sent == {y \in hit : Owner(y) # s /\ (x.f = 0 \/ w.tree[y] = x.f)}
+        w1 == [w EXCEPT !.mirror[s] = [p \in sent |-> w.tree[p]] @@ @, !.hush = @ \ {<<s, p>> : p \in sent}]      \* the matching nodes are (re-)sent in any case
+    IN IF pat \in Subs(w, s) THEN w1      \* same path again (the menu gives each path one filter: no mark changes); one spelling per path (F27 is C04's)
+       ELSE [w1 EXCEPT !.psub[s] = @ \cup {x},
+                       !.marks = [p \in DOMAIN w.tree |-> IF p \in hit THEN [w.marks[p] EXCEPT ![s] = @ + 1] ELSE w.marks[p]]]
+\* RemoveParameter of a SUBSCRIBE: parameter: -1 on every node matching the path; the server says nothing, the client prunes its mirror
+\* (it drops what none of its remaining subscriptions - path and filter, on the mirrored payload - selects)
 Unsubscribe(w, s, x) ==
     LET pat == Fix(x)
         w1 == [w EXCEPT !.psub[s] = @ \ {x},
                         !.marks = [p \in DOMAIN w.tree |-> IF Match(pat, p) THEN [w.marks[p] EXCEPT ![s] = IF @ > 0 THEN @ - 1 ELSE 0] ELSE w.marks[p]]]
-    IN [w1 EXCEPT !.mirror[s] = [p \in {y \in DOMAIN w.mirror[s] : \E q \in Subs(w1, s) : Match(q, y)} |-> w.mirror[s][p]]]
+    IN [w1 EXCEPT !.mirror[s] = [p \in {y \in DOMAIN w.mirror[s] : \E q \in w1.psub[s] : Match(Fix(q), y) /\ (q.f = 0 \/ q.f = w.mirror[s][y])} |-> w.mirror[s][p]]]
 RECURSIVE UnsubAll(_, _, _)
 UnsubAll(w, s, xs) == IF xs = {} THEN w ELSE LET x == CHOOSE y \in xs : TRUE IN UnsubAll(Unsubscribe(w, s, x), s, xs \ {x})
 
@@ -152,9 +178,10 @@ Disconnect(w, s) ==
         w1 == RemoveSub(w, Root(s), s, tell)
         hostEmpty == ~\E q \in DOMAIN w1.tree : Len(q) = 2 /\ q[1] = HostOf(s)
         w2 == IF hostEmpty THEN RemoveSub(w1, <<HostOf(s)>>, s, tell) ELSE w1
-        wipe(p) == (\E pat \in Subs(w, s) : Match(pat, p)) /\ ("DeepMarksStay" \notin Deviations \/ Len(p) <= 3)
+        wipe(p) == /\ \E x \in w.psub[s] : Match(Fix(x), p) /\ ("FilteredMarksStay" \notin Deviations \/ x.f = 0 \/ x.f = w2.tree[p])    \* the walk ignores the filters
+                   /\ ("DeepMarksStay" \notin Deviations \/ Len(p) <= 3)
     IN [w2 EXCEPT !.marks = [p \in DOMAIN w2.tree |-> IF wipe(p) THEN [w2.marks[p] EXCEPT ![s] = 0] ELSE w2.marks[p]],
-                  !.params[s] = {}, !.psub[s] = {}, !.conn = @ \ {s}, !.mirror[s] = <<>>]
+                  !.params[s] = {}, !.psub[s] = {}, !.conn = @ \ {s}, !.mirror[s] = <<>>, !.hush = {e \in w2.hush : e[1] # s}]
 RECURSIVE DisconnectAll(_, _)
 DisconnectAll(w, ss) == IF ss = {} THEN w ELSE LET s == CHOOSE x \in ss : TRUE IN DisconnectAll(Disconnect(w, s), ss \ {s})
 
@@ -174,8 +201,8 @@ RECURSIVE Apply(_, _, _), ApplySeq(_, _, _, _)
 Apply(w, s, c) ==
     CASE c.op = "SETDATA" ->        \* a path that starts with a slash is ignored ("not allowed, and will be ignored")
              IF c.p = <<>> THEN w
-             ELSE IF c.abs THEN (IF "SetDataAbsolute" \in Deviations THEN SetPath(w, <<>>, c.p, 1, c.pay, s, FALSE) ELSE w)
-             ELSE SetPath(w, Root(s), c.p, 1, c.pay, s, c.x = "index")
+             ELSE IF c.abs THEN (IF "SetDataAbsolute" \in Deviations THEN SetPath(w, <<>>, c.p, 1, c.pay, s, FALSE, FALSE) ELSE w)
+             ELSE SetPath(w, Root(s), c.p, 1, c.pay, s, c.x = "index", c.x = "quiet")      \* c.x: "" | "index" (SETDATANODE_FLAG_ADDTOINDEX) | "quiet" (SETDATANODE_FLAG_QUIET)
       [] c.op = "REMOVEDATA" -> RemoveAll(w, RelSel(w, s, c.p, "RemoveFromGlobalRoot" \in Deviations), s)
       [] c.op = "INSERTORDEREDDATA" -> InsertAll(w, RelSel(w, s, c.p, FALSE), c.x, c.pay, s)
       [] c.op = "REORDERDATA" -> ReorderAll(w, RelSel(w, s, c.p, "ReorderFromGlobalRoot" \in Deviations), c.x)
@@ -186,11 +213,11 @@ Apply(w, s, c) ==
       [] c.op = "SETPARAM" ->        \* c.x the parameter name, c.v its value
              IF c.x = "!Priv" THEN (IF "PrivBitsAccepted" \in Deviations THEN [w EXCEPT !.params[s] = @ \cup {<<"!Priv", c.v>>}] ELSE w)
              ELSE [w EXCEPT !.params[s] = {e \in @ : e[1] # c.x} \cup {<<c.x, c.v>>}]
-      [] c.op = "SUBSCRIBE" -> Subscribe(w, s, [abs |-> c.abs, p |-> c.p])
+      [] c.op = "SUBSCRIBE" -> Subscribe(w, s, [abs |-> c.abs, p |-> c.p, f |-> c.pay])       \* c.pay: the what-code its filter asks for (0: no filter)
       [] c.op = "REMOVEPARAM" ->     \* c.x: "*" every parameter, "SUBSCRIBE:*" every subscription, else one parameter by name
              IF c.x = "*" THEN [UnsubAll(w, s, w.psub[s]) EXCEPT !.params[s] = {}]
              ELSE IF c.x = "SUBSCRIBE:*" THEN UnsubAll(w, s, w.psub[s])
-             ELSE IF c.x = "SUBSCRIBE:" THEN (IF [abs |-> c.abs, p |-> c.p] \in w.psub[s] THEN Unsubscribe(w, s, [abs |-> c.abs, p |-> c.p]) ELSE w)
+             ELSE IF c.x = "SUBSCRIBE:" THEN (LET xs == {x \in w.psub[s] : x.abs = c.abs /\ x.p = c.p} IN IF xs = {} THEN w ELSE Unsubscribe(w, s, CHOOSE x \in xs : TRUE))
              ELSE [w EXCEPT !.params[s] = {e \in @ : e[1] # c.x}]
       [] c.op = "MSG" -> w           \* a client-to-client Message (what-code outside the command range): routed, changes nothing
       [] c.op = "BATCH" -> ApplySeq(w, s, c.sub, 1)
@@ -218,6 +245,8 @@ ForgePriv == CP("!Priv", "-1")
 FullMenu ==
     {C("SETDATA", x[1], x[2], "", 7) : x \in SetPaths}
     \cup {C("SETDATA", FALSE, <<"a", "I0">>, "index", 5), C("SETDATA", FALSE, <<"a", "I1">>, "index", 6)}
+    \cup {C("SETDATA", FALSE, <<"a">>, "quiet", 7), C("SETDATA", FALSE, <<"a", "b">>, "quiet", 7), C("SETDATA", FALSE, <<"c">>, "quiet", 1), C("SETDATA", FALSE, <<"a">>, "", 2), C("SETDATA", FALSE, <<"c">>, "", 2)}
+    \cup {C("SUBSCRIBE", FALSE, <<"a">>, "", 2), C("SUBSCRIBE", TRUE, <<"*", "*", "c">>, "", 1), C("REMOVEPARAM", FALSE, <<"a">>, "SUBSCRIBE:", 0)}
     \cup {C("REMOVEDATA", x[1], x[2], "", 0) : x \in RemPaths}
     \cup {C("INSERTORDEREDDATA", x[1], x[2], b, 8) : x \in InsPaths, b \in {"zz", "I0"}}
     \cup {C("REORDERDATA", x[1], x[2], x[3], 0) : x \in ReoCmds}
@@ -238,7 +267,8 @@ SmallMenu ==
      C("REMOVEDATA", FALSE, <<"*">>, "", 0), C("REMOVEDATA", TRUE, <<"*", "*", "*">>, "", 0), C("REMOVEDATA", TRUE, <<"*", "*", "a", "*">>, "", 0),
      C("INSERTORDEREDDATA", FALSE, <<"a">>, "zz", 8), C("REORDERDATA", TRUE, <<"hA", "s2", "a", "I0">>, "zz", 0),
      KickAll, C("SUBSCRIBE", FALSE, <<"*">>, "", 0), C("SUBSCRIBE", FALSE, <<"*", "*">>, "", 0), C("SUBSCRIBE", TRUE, <<"*", "*">>, "", 0),
-     C("REMOVEPARAM", FALSE, <<>>, "*", 0), ForgePriv, Batch(<<ForgePriv, KickAll>>)}
+     C("REMOVEPARAM", FALSE, <<>>, "*", 0), ForgePriv, Batch(<<ForgePriv, KickAll>>),
+     C("SETDATA", FALSE, <<"a", "b">>, "quiet", 7), C("SETDATA", FALSE, <<"a">>, "", 2), C("SUBSCRIBE", FALSE, <<"a">>, "", 2), C("SUBSCRIBE", TRUE, <<"*", "*", "c">>, "", 1)}
 
 Menu == IF MenuKind = "full" THEN FullMenu ELSE SmallMenu
 
@@ -248,14 +278,15 @@ Empty == [tree |-> (<<"hA">> :> 0) @@ (<<"hB">> :> 0) @@ [s \in {Root(t) : t \in
           idx |-> <<>>, ctr |-> (<<"hA">> :> 0) @@ (<<"hB">> :> 0) @@ [s \in {Root(t) : t \in S} |-> 0],
           born |-> (<<"hA">> :> 0) @@ (<<"hB">> :> 0) @@ [s \in {Root(t) : t \in S} |-> 0], clock |-> 1,
           marks |-> (<<"hA">> :> [s \in S |-> 0]) @@ (<<"hB">> :> [s \in S |-> 0]) @@ [q \in {Root(t) : t \in S} |-> [s \in S |-> 0]],
-          params |-> [s \in S |-> {}], psub |-> [s \in S |-> {}], conn |-> S, mirror |-> [s \in S |-> <<>>]]
+          params |-> [s \in S |-> {}], psub |-> [s \in S |-> {}], conn |-> S, mirror |-> [s \in S |-> <<>>], hush |-> {}]
 Setup == <<
     <<"s2", C("SETDATA", FALSE, <<"a">>, "", 1)>>, <<"s2", C("SETDATA", FALSE, <<"a", "b">>, "", 2)>>,
     <<"s2", C("SETDATA", FALSE, <<"a", "I0">>, "index", 3)>>, <<"s2", C("SETDATA", FALSE, <<"a", "I1">>, "index", 4)>>,
     <<"s2", C("SETDATA", FALSE, <<"c">>, "", 1)>>,
     <<"s2", CP("myparam", "7")>>, <<"s2", C("SUBSCRIBE", FALSE, <<"*">>, "", 0)>>, <<"s2", C("SUBSCRIBE", FALSE, <<"a", "*">>, "", 0)>>,
     <<"s3", C("SETDATA", FALSE, <<"a">>, "", 1)>>,
-    <<"s3", C("SUBSCRIBE", FALSE, <<"*", "*">>, "", 0)>>, <<"s3", C("SUBSCRIBE", TRUE, <<"*", "*">>, "", 0)>> >>
+    <<"s3", C("SUBSCRIBE", FALSE, <<"*", "*">>, "", 0)>>, <<"s3", C("SUBSCRIBE", TRUE, <<"*", "*">>, "", 0)>>,
+    <<"s3", C("SUBSCRIBE", FALSE, <<"a">>, "", 2)>> >>      \* a filtered subscription whose filter the existing "a" nodes (what 1) do not pass: they carry s3's mark all the same
 RECURSIVE RunSetup(_, _)
 RunSetup(w, i) == IF i > Len(Setup) THEN w ELSE RunSetup(Apply(w, Setup[i][1], Setup[i][2]), i + 1)
 InitWorld == RunSetup(Empty, 1)
@@ -265,7 +296,7 @@ Flat(w) == [tree   |-> {<<p, w.tree[p]>> : p \in DOMAIN w.tree},
             idx    |-> {<<p, w.idx[p]>> : p \in DOMAIN w.idx},
             marks  |-> {t \in {<<p, s, w.marks[p][s]>> : p \in DOMAIN w.tree, s \in S} : t[3] > 0},
             params |-> UNION {{<<s, e[1], e[2]>> : e \in w.params[s]} : s \in S},
-            psub   |-> UNION {{<<s, x.abs, x.p>> : x \in w.psub[s]} : s \in S},
+            psub   |-> UNION {{<<s, x.abs, x.p, x.f>> : x \in w.psub[s]} : s \in S},
             conn   |-> w.conn,
             mirror |-> UNION {{<<s, p, w.mirror[s][p]>> : p \in DOMAIN w.mirror[s]} : s \in S}]
 
@@ -301,18 +332,24 @@ EraseSession(w, s) ==
     IN [tree |-> [p \in keep |-> w.tree[p]], idx |-> [p \in DOMAIN w.idx \ gone |-> w.idx[p]], ctr |-> [p \in keep |-> w.ctr[p]], born |-> [p \in keep |-> w.born[p]], clock |-> w.clock,
         marks |-> [p \in keep |-> [w.marks[p] EXCEPT ![s] = 0]],
         params |-> [w.params EXCEPT ![s] = {}], psub |-> [w.psub EXCEPT ![s] = {}], conn |-> w.conn \ {s},
-        mirror |-> [t \in S |-> IF t = s THEN <<>> ELSE [p \in DOMAIN w.mirror[t] \ gone |-> w.mirror[t][p]]]]
-Erase == [][kind' = "depart" => st' = EraseSession(st, who')]_vars
+        mirror |-> [t \in S |-> IF t = s THEN <<>> ELSE [p \in DOMAIN w.mirror[t] \ gone |-> w.mirror[t][p]]],
+        hush |-> {e \in w.hush : e[1] # s /\ e[2] \notin gone}]
+\* (where a mirror lags because of a QUIET change - hush - it is not the departure's business)
+SameButHush(a, b) == /\ [a EXCEPT !.mirror = <<>>, !.hush = {}] = [b EXCEPT !.mirror = <<>>, !.hush = {}]
+                     /\ \A t \in S : \A p \in DOMAIN a.mirror[t] \cup DOMAIN b.mirror[t] :
+                            <<t, p>> \in a.hush \cup b.hush \/ (p \in DOMAIN a.mirror[t] /\ p \in DOMAIN b.mirror[t] /\ a.mirror[t][p] = b.mirror[t][p])
+Erase == [][kind' = "depart" => SameButHush(st', EraseSession(st, who'))]_vars
 
 \* the incrementally maintained marks are exactly the match counts of the connected sessions' subscriptions
 MarksExact == \A p \in DOMAIN st.tree, s \in S : st.marks[p][s] = IF s \in st.conn THEN Cnt(st, s, p) ELSE 0
 \* every client's mirror is exactly what its subscriptions select of the others' nodes
-MirrorExact == \A s \in st.conn : st.mirror[s] = [p \in {q \in DOMAIN st.tree : Sel(st, s, q)} |-> st.tree[p]]
+MirrorExact == \A s \in st.conn : \A p \in DOMAIN st.tree \cup DOMAIN st.mirror[s] :
+                   <<s, p>> \in st.hush \/ (IF p \in DOMAIN st.tree /\ Sel(st, s, p) THEN p \in DOMAIN st.mirror[s] /\ st.mirror[s][p] = st.tree[p] ELSE p \notin DOMAIN st.mirror[s])
 \* a departed session has nothing left
 NoTrace == \A s \in S \ st.conn : /\ ~\E p \in DOMAIN st.tree : Under(Root(s), p)
                                   /\ st.params[s] = {} /\ st.psub[s] = {} /\ st.mirror[s] = <<>>
                                   /\ \A p \in DOMAIN st.tree : st.marks[p][s] = 0
-                                  /\ \A t \in st.conn : \A p \in DOMAIN st.mirror[t] : ~Under(Root(s), p)
+                                  /\ \A t \in st.conn : \A p \in DOMAIN st.mirror[t] : ~Under(Root(s), p) \/ <<t, p>> \in st.hush
 \* index entries are children, none twice
 IdxSound == \A q \in DOMAIN st.idx : /\ q \in DOMAIN st.tree /\ st.idx[q] # <<>>
                                      /\ \A i \in 1..Len(st.idx[q]) : (q \o <<st.idx[q][i]>>) \in DOMAIN st.tree
